@@ -30,6 +30,7 @@ extraction (L9), the word fast path (L10), query → match-tree translation (L11
 import ZoektModel.C01.Lemmas
 import ZoektModel.C01.IterLemmas
 import ZoektModel.C01.IterSpec
+import ZoektModel.C01.DocIterLemmas
 namespace ZoektModel.C01
 
 /-- **one `evalMatchTree` call** on a consistent tree: the tree stays consistent, its plain value is unchanged, a decided
@@ -162,6 +163,52 @@ example : exDist.WF ∧ exDist.started = false := by
   · intro p ⟨l, hl, hp⟩; simp [exDist] at hl; rcases hl with h | h <;> subst h <;> simp at hp <;> simp [maxU32] <;> omega
   · intro p ⟨l, hl, hp⟩; simp [exDist] at hl; subst hl; simp at hp; simp [maxU32]; omega
 example : ((Hit.dist exDist).runNext [3, 5]).first.1 = 10 ∧ ((Hit.dist exDist).runNext [3, 10]).first.1 = maxU32 := by decide
+
+/-- **`post_complete`** (L1): an occurrence of the pattern at offset `o` of document `d` puts `base(d) + o + k` into the
+    posting list of the pattern's `k`-th trigram (posting lists = all within-document occurrences of the trigram) -/
+theorem post_complete_thm (texts : List (List Nat)) (pat : List Nat) (d o k : Nat) (hd : d < texts.length)
+    (hocc : occAt pat texts d o) (hk : k + 3 ≤ pat.length) :
+    baseOf texts d + o + k ∈ post (tri pat k) texts :=
+  post_complete texts pat d o k hd hocc hk
+
+/-- **`nextFileIndex`** (galloping search) returns the smallest `j ≥ f` with `ends[j] > offset` -/
+theorem nextFileIndex_exact (offset f : Nat) (ends : List Nat) (hm : Mono ends) :
+    f ≤ nextFileIndex offset f ends ∧
+    (∀ j, f ≤ j → j < nextFileIndex offset f ends → ends.getD j 0 ≤ offset) ∧
+    (nextFileIndex offset f ends < ends.length → offset < ends.getD (nextFileIndex offset f ends) 0) :=
+  nextFileIndex_spec offset f ends hm
+
+/-- **`docIter_candidates_complete`** (L4): for EVERY choice `i ≤ j` of the two trigram positions (so the frequency
+    heuristic of `findSelectiveNgrams` cannot affect results), driving the `ngramDocIterator` built over the true
+    posting lists as `Search` does — strictly increasing documents; `nextDoc`, `prepare`, `candidates` for each —
+    every rune offset at which the pattern occurs in a visited document is among that document's candidates -/
+theorem docIter_candidates_complete (texts : List (List Nat)) (pat : List Nat) (i j : Nat) (hij : i ≤ j)
+    (hj : j + 3 ≤ pat.length) (hsz : totalLen texts + pat.length < maxU32)
+    (docs : List Nat) (hsorted : docs.Pairwise (· < ·)) (hrange : ∀ d, d ∈ docs → d < texts.length)
+    (d : Nat) (cs : List Nat) (hmem : (d, cs) ∈ (mkIter texts pat i j).drive docs) (o : Nat)
+    (hocc : occAt pat texts d o) : o ∈ cs :=
+  DocIter.drive_complete texts pat i (by omega) hsz docs 0 _ (mkIter_inv texts pat i j hij hj hsz) hsorted
+    (fun x hx => ⟨Nat.zero_le _, hrange x hx⟩) d cs hmem o hocc
+
+/-- **`docIter_nextDoc_sound`** (L4): `nextDoc` of the document iterator never exceeds the next document that contains
+    an occurrence of the pattern (in any state reached along a search) -/
+theorem docIter_nextDoc_sound (texts : List (List Nat)) (pat : List Nat) (i L : Nat) (it : DocIter)
+    (hi : i + 3 ≤ pat.length) (h : it.Inv texts pat i L) (d : Nat) (hL : L ≤ d) (hd : d < it.nextDoc.1)
+    (hdn : d < texts.length) (o : Nat) : ¬ occAt pat texts d o :=
+  (it.nextDoc_inv texts pat i L hi h).2 d hL hd hdn o
+
+/-! non-vacuity: three documents "xabcd", "", "abcabcd"; pattern "abcd" occurs in documents 0 (offset 1) and 2 (offset 3);
+    trigram choices (0,0), (0,1), (1,1) all give those candidates -/
+def exTexts : List (List Nat) := [[120, 97, 98, 99, 100], [], [97, 98, 99, 97, 98, 99, 100]]
+def exPat : List Nat := [97, 98, 99, 100]
+example : occAt exPat exTexts 0 1 ∧ occAt exPat exTexts 2 3 := by unfold occAt; decide
+example : post (tri exPat 0) exTexts = [1, 5, 8] ∧ post (tri exPat 1) exTexts = [2, 9] := by decide
+example : ((mkIter exTexts exPat 0 1).prepare 0).candidates.1 = [1] ∧
+    ((((mkIter exTexts exPat 0 1).prepare 0).candidates.2).prepare 2).candidates.1 = [3] ∧
+    ((((mkIter exTexts exPat 0 0).prepare 0).candidates.2).prepare 2).candidates.1 = [0, 3] ∧
+    ((mkIter exTexts exPat 1 1).prepare 2).candidates.1 = [3] := by decide
+example : (mkIter exTexts exPat 0 1).Inv exTexts exPat 0 0 :=
+  mkIter_inv exTexts exPat 0 1 (by decide) (by decide) (by decide)
 
 /-! non-vacuity: a shard of 5 documents (document 3 dead), tree `and[doc-predicate, not(regexp verdicts), or[branch, none]]` -/
 def exCtx : Ctx := ⟨[[97], [98], [99], [100], [101]], [[], [], [], [], []], [true, true, true, false, true]⟩
